@@ -144,6 +144,9 @@ class Model(Hooks):
                 first_street=s.street_index == 0,
                 mode=self.cfg['mode'],
                 total_chips=sum(s.starting_stacks),
+                # what the players have put in so far (a stack may be
+                # math.inf, "not mentioned")
+                pot0=-sum(s.payoffs),
             )
             self.round = r
             self.stats.count('rounds')
